@@ -19,7 +19,10 @@ RULE = ("scenes from the seed: 6..8 (thorough 6..10) cells per axis; per axis a 
         "diagonal inv_eps and scalar/diagonal inv_mu (lossless), T = 4..8 (thorough 4..25) steps, recorder "
         "Recorder(modules=[]) in float64; one extra float32 scene per run with a widening DtypeConversion(float64) "
         "module (tolerance 2e-5, float32 arithmetic). Oracle: max interior |backward^k(final) - forward state| <= 1e-9 "
-        "at every k; once per run also run_fdtd (reversible) + full_backward to step 0. K: forward() vs model pmlfwd and "
+        "at every k; once per run also run_fdtd (reversible) + full_backward to step 0. In the forced scene, in half of "
+        "the random scenes and in the public-route case the trajectory is recorded TWICE into the same container (a first "
+        "run with other initial fields resp. other materials, then ArrayContainer.reset(), which keeps the recording "
+        "buffers) and the reverse sweep of the SECOND run is compared with the second run's forward states. K: forward() vs model pmlfwd and "
         "backward() vs model pmlbwd (recorded interfaces restored, PML boxes reset, sources probed from update_E/H on "
         "zero fields) on two steps per scene, all cells, 1e-9; grid_slice_tuple / interface_slice(_tuple) of every "
         "placed PML and of boundaries placed directly for every axis x direction x thickness 1..4 vs model iface. "
@@ -64,6 +67,7 @@ def gen_case(rng, thorough, small=False):
     c["mu_tier"] = rng.choice([0, 3])
     c["T"] = rng.randint(4, 25 if thorough else 8)
     c["recorder"] = "plain"
+    c["twice"] = rng.chance(0.5)
     c["seed"] = rng.np_seed()
     return c
 
@@ -172,7 +176,21 @@ def sweep(c, keep=False):
     else:
         arrays = Y.with_state(sc, E, H, inv_eps, None if c["mu_tier"] == 0 else inv_mu)
     T = int(sc.config.time_steps_total)
-    st = (Y.J()["jnp"].asarray(0, dtype=Y.J()["jnp"].int32), arrays)
+    jnp = Y.J()["jnp"]
+    if c.get("twice"):
+        # a FIRST run (other initial fields) is recorded into the same container; ArrayContainer.reset() keeps the
+        # recording buffers by default, so the second run below overwrites slots that are already written
+        r1 = np.random.default_rng(c["seed"] + 1)
+        E1, H1 = Y.wall_project(sc, 2.0 * r1.standard_normal(E.shape) * inter, 2.0 * r1.standard_normal(H.shape) * inter)
+        a1 = arrays.aset("fields->E", jnp.asarray(E1, dtype=arrays.fields.E.dtype))
+        a1 = a1.aset("fields->H", jnp.asarray(H1, dtype=arrays.fields.H.dtype))
+        s1 = (jnp.asarray(0, dtype=jnp.int32), a1)
+        for t in range(T):
+            s1 = Y.impl_forward(sc, s1[1], t=t, n=1, record_boundaries=True)
+        a2 = s1[1].reset()
+        a2 = a2.aset("fields->E", arrays.fields.E)
+        arrays = a2.aset("fields->H", arrays.fields.H)
+    st = (jnp.asarray(0, dtype=jnp.int32), arrays)
     traj, states = [fields(st)], [st] if keep else []
     for t in range(T):
         st = Y.impl_forward(sc, st[1], t=t, n=1, record_boundaries=True)
@@ -230,10 +248,17 @@ def full_backward_fails(c, strict=False):
     arrays = Y.with_state(sc, z, z, inv_eps, None if c["mu_tier"] == 0 else inv_mu)
     key = jax.random.PRNGKey(0)
     T = int(sc.config.time_steps_total)
+    if c.get("twice"):
+        # first run with OTHER materials; its container (recording buffers written) is handed to the second run —
+        # reversible_fdtd resets fields and detector states but keeps the recording state
+        r1 = np.random.default_rng(c["seed"] + 1)
+        first = arrays.aset("inv_permittivities", jnp.asarray(r1.uniform(0.2, 1.0, np.asarray(arrays.inv_permittivities).shape)))
+        st1 = f.run_fdtd(arrays=first, objects=sc.objects, config=sc.config, key=key, show_progress=False)
+        arrays = st1[1].aset("inv_permittivities", arrays.inv_permittivities)
     st = f.run_fdtd(arrays=arrays, objects=sc.objects, config=sc.config, key=key, show_progress=False)
     if int(st[0]) != T:
         return f"run_fdtd stopped at step {int(st[0])}"
-    ref = (jnp.asarray(0, dtype=jnp.int32), arrays)
+    ref = (jnp.asarray(0, dtype=jnp.int32), arrays.reset())
     k = T // 2
     ref = Y.impl_forward(sc, ref[1], t=0, n=k)
     Ek, Hk = fields(ref)
@@ -360,8 +385,8 @@ def one_case(ctx, c, sample=False, k=True):
     ctx.impl_property_evals += 1
     d = verdict(c, worst, scale, bad, t_ok)
     npml = len(c["spec"])
-    ctx.case(sample={kk: c[kk] for kk in ("shape", "faces", "spec", "source", "T", "recorder", "seed")} if sample else None,
-             nontrivial=("sweep", c["seed"], c["recorder"]), n_pml_faces=npml, T=c["T"], recorder=c["recorder"],
+    ctx.case(sample={kk: c.get(kk) for kk in ("shape", "faces", "spec", "source", "T", "recorder", "twice", "seed")} if sample else None,
+             nontrivial=("sweep", c["seed"], c["recorder"]), recorded_twice=bool(c.get("twice")), n_pml_faces=npml, T=c["T"], recorder=c["recorder"],
              grid="nonuniform" if c["widths"] else "uniform", source=(c["source"] or {}).get("kind", "none"),
              max_thickness=max(c["spec"].values()), has_periodic="periodic" in c["faces"].values(),
              has_wall=any(v in ("pec", "pmc") for v in c["faces"].values()))
@@ -378,7 +403,8 @@ FORCED = [
     # PML on all six faces with mixed thicknesses: every edge and corner overlap
     dict(shape=[8, 7, 7], faces={k: "pml" for k in Y.FACES},
          spec={"min_x": 2, "max_x": 3, "min_y": 1, "max_y": 2, "min_z": 3, "max_z": 1}, widths=None,
-         source=dict(kind="dipole_m", pol=0, axis=0, direction="+", amp=1.3, pos=[3, 2, 4]), eps_tier=1, mu_tier=0, T=5),
+         source=dict(kind="dipole_m", pol=0, axis=0, direction="+", amp=1.3, pos=[3, 2, 4]), eps_tier=1, mu_tier=0, T=5,
+         twice=True),
     dict(shape=[7, 6, 6], faces={"min_x": "pml", "max_x": "pml", "min_y": "periodic", "max_y": "periodic", "min_z": "pec", "max_z": "pml"},
          spec={"min_x": 2, "max_x": 1, "max_z": 3}, widths=None,
          source=dict(kind="dipole_e", pol=2, axis=0, direction="+", amp=1.0, pos=[3, 2, 1]), eps_tier=3, mu_tier=3, T=6),
@@ -419,6 +445,7 @@ def run(ctx):
         hi = [min(c["shape"][a] - 2, c["shape"][a] - c["spec"].get(Y.FACES[2 * a + 1], 0) - 1) for a in range(3)]
         c["source"]["pos"] = [ctx.rng.randint(lo[a], max(lo[a], hi[a])) for a in range(3)]
         c["source"]["profile"] = "cw"
+        c["twice"] = True
         c["targets"] = ctx.scale(1, 2)   # quick: only the intermediate step (each target is one more jit compilation)
         d = full_backward_fails(c, strict=True)
         ctx.impl_property_evals += 1
